@@ -496,6 +496,7 @@ func (c *Collection) Update(key string, exp Exp, callback sgbucket.UpdateFunc) (
 	traceEnter("Update", "%q, %d, ...", key, exp)
 	defer func() { traceExit("Update", err, "0x%x", casOut) }()
 	for {
+		exp := exp // every attempt starts from the caller's expiry, not from what a refused attempt's callback asked for
 		raw, cas, _, err := c.getRaw(c.db(), key)
 		var missingError sgbucket.MissingError
 		if err != nil && !errors.As(err, &missingError) {
